@@ -105,10 +105,46 @@ static inline void spec_sha1_compress(uint32_t H[5], const unsigned char M[64]) 
         else if(t < 40) { f = SPEC_PARITY(b, c, d); K = 0x6ed9eba1u; }
         else if(t < 60) { f = SPEC_MAJ(b, c, d);    K = 0x8f1bbcdcu; }
         else            { f = SPEC_PARITY(b, c, d); K = 0xca62c1d6u; }
-        T = SPEC_ROTL32(a, 5) + f + e + K + W[t];
+        T = SPEC_ROTL32(a, 5) + f + e + K + W[t];                        /* = SPEC_SHA1_T_FIPS(a, f, e, K, W[t]) */
         e = d; d = c; c = SPEC_ROTL32(b, 30); b = a; a = T;
     }
     H[0] = a + H[0]; H[1] = b + H[1]; H[2] = c + H[2]; H[3] = d + H[3]; H[4] = e + H[4];   /* step 4 */
+}
+
+
+/* ---- SHA-1, second form, for the decomposition of the block equivalence (units/shablk.c) ---------------------
+ * The FIPS text of step 3 is  T = ROTL5(a) + f_t(b,c,d) + e + K_t + W_t.  32-bit addition is associative and
+ * commutative, and Ch/Maj have several equivalent Boolean forms, but a SAT solver has to rediscover that in each of
+ * the 80 chained rounds when an implementation sums in another order (the monolithic equivalence did not finish in
+ * an hour).  spec_sha1_compress_ord is the SAME text as spec_sha1_compress except that T is computed by
+ * SPEC_SHA1_T_ORD and f_t by the *_ALT forms.  The one-round lemma (unit sha1_round_lemma, full domain, seconds)
+ * proves  SPEC_SHA1_T_ORD == SPEC_SHA1_T_FIPS,  SPEC_CH_ALT == SPEC_CH,  SPEC_MAJ_ALT == SPEC_MAJ  for all word
+ * values; replacing a subexpression by a pointwise-equal one does not change the function (this last step is a
+ * substitution argument, not mechanised). */
+#define SPEC_SHA1_T_FIPS(a, f, e, K, W) (SPEC_ROTL32(a, 5) + (f) + (e) + (K) + (W))
+#define SPEC_SHA1_T_ORD(a, f, e, K, W)  ((e) + ((f) + (W) + (K) + SPEC_ROTL32(a, 5)))
+#define SPEC_CH_ALT(x, y, z)  ((((x) & ((y) ^ (z))) ^ (z)))
+#define SPEC_MAJ_ALT(x, y, z) (((((x) | (y)) & (z)) | ((x) & (y))))
+static inline void spec_sha1_compress_ord(uint32_t H[5], const unsigned char M[64]) {
+    uint32_t W[80];
+    uint32_t a, b, c, d, e, T;
+    int t;
+    for(t = 0; t < 16; t++)
+        W[t] = ((uint32_t)M[4 * t] << 24) | ((uint32_t)M[4 * t + 1] << 16) |
+               ((uint32_t)M[4 * t + 2] << 8) | (uint32_t)M[4 * t + 3];
+    for(t = 16; t < 80; t++)
+        W[t] = SPEC_ROTL32(W[t - 3] ^ W[t - 8] ^ W[t - 14] ^ W[t - 16], 1);
+    a = H[0]; b = H[1]; c = H[2]; d = H[3]; e = H[4];
+    for(t = 0; t < 80; t++) {
+        uint32_t f, K;
+        if(t < 20)      { f = SPEC_CH_ALT(b, c, d);  K = 0x5a827999u; }
+        else if(t < 40) { f = SPEC_PARITY(b, c, d);  K = 0x6ed9eba1u; }
+        else if(t < 60) { f = SPEC_MAJ_ALT(b, c, d); K = 0x8f1bbcdcu; }
+        else            { f = SPEC_PARITY(b, c, d);  K = 0xca62c1d6u; }
+        T = SPEC_SHA1_T_ORD(a, f, e, K, W[t]);
+        e = d; d = c; c = SPEC_ROTL32(b, 30); b = a; a = T;
+    }
+    H[0] = a + H[0]; H[1] = b + H[1]; H[2] = c + H[2]; H[3] = d + H[3]; H[4] = e + H[4];
 }
 
 /* ---- 6.2.2 SHA-256 hash computation, one block ----------------------------------------------- */
